@@ -261,8 +261,16 @@ func (s *verSys) checkVerListing() ([]*engine.Violation, int64) {
 						break
 					}
 					got := map[string]bool{}
+					repeated := ""
 					for _, pe := range pg.Entries {
 						got[verEntryKey(pe)] = true
+						if pe.Key < e.Key || (pe.Key == e.Key && pe.ID == e.ID) {
+							repeated = renderVer([]drv.VerEntry{pe})
+						}
+					}
+					if repeated != "" {
+						bad("marker+filter", "repeated", "markers (%q,%q): %s is at or before the marker and is returned again: %s", e.Key, e.ID, repeated, renderVer(pg.Entries))
+						break
 					}
 					missing := ""
 					after := false
